@@ -23,6 +23,8 @@ pub enum Pick {
     High(u64),
     /// EOS token, allowed or not
     Eos,
+    /// r-th EOS token of a multi-EOS vocabulary (same as Eos when there is only one)
+    EosAlt(u64),
     /// r-th token NOT in the mask (misbehaving sampler)
     Outside(u64),
     /// id >= vocab size
